@@ -28,7 +28,7 @@ ENCODED = ["twisted.names.dns:" + n for n in (
     "Record_SRV.decode", "Record_NAPTR.decode", "Record_AFSDB.decode", "Record_RP.decode", "Record_HINFO.decode",
     "Record_MINFO.decode", "Record_MX.decode", "Record_SSHFP.decode", "Record_TXT.decode", "UnknownRecord.decode",
     "Record_TSIG.decode", "DNSDatagramProtocol.datagramReceived", "DNSProtocol.dataReceived")]
-BOUNDS = {"quick": {"body": 4, "rd": 1}, "thorough": {"body": 6, "rd": 3}}
+BOUNDS = {"quick": {"body": 4, "rd": 1, "lp": 9}, "thorough": {"body": 6, "rd": 3, "lp": 12}}
 B = {}
 BOUNDS_TEXT = ("every message of 0, 7, 11 bytes and of 12 + k bytes with the four section counts 0..2 and all k body "
                "bytes fully symbolic: k <= 1 (quick) / 2 (thorough) with id and flag bytes fully symbolic, k = 2 / 3 "
@@ -175,6 +175,32 @@ def rdata(typ: str, rdlen: str, body: str) -> bool:
     return True
 
 
+LP_TYPES = [16, 99, 13, 35, 10, 11, 44, 250, 38, 17, 200, 15, 6, 33, 18, 14]
+LP_FILL1 = "ab"
+LP_FILL2 = "cd\x00f"
+
+
+def lenpref(ti: int, rdlen: str, s1: str, s2: str) -> bool:
+    """
+    pre: 0 <= ti < 16 and len(rdlen) == 1 and len(s1) == 1 and len(s2) == 1
+    pre: ord(rdlen) <= B['lp'] and ord(s1) < 256 and ord(s2) < 256
+    post: _
+    """
+    # RDLENGTH inconsistent with the lengths INSIDE the rdata, with packet bytes available behind it: one
+    # answer at the root name, type from the menu of record types that read length-prefixed / rdlength-
+    # sized data (TXT SPF HINFO NAPTR NULL WKS SSHFP TSIG A6 RP unknown MX SOA SRV AFSDB MINFO); rdata =
+    # <symbolic octet> "ab" <symbolic octet> "cd\0f" followed by nothing else, RDLENGTH symbolic 0..lp
+    typ = LP_TYPES[c32._bisect_value(ti, 0, len(LP_TYPES) - 1)]
+    data = ("\x12\x34\x84\x00" + "\0\0\0\1\0\0\0\0" + "\0" + "\0" + chr(typ) + "\0\1" + "\0\0\0\5" + "\0" + rdlen
+            + s1 + LP_FILL1 + s2 + LP_FILL2)
+    r, m = _decode(data)
+    api.obs(r)
+    cover()
+    if r == "ok":
+        return len(m.answers) <= 1 and m.queries == [] and m.authority == [] and m.additional == []
+    return True
+
+
 def _wires():
     """one complete, valid message per record class, produced by the REAL encoder of the tree under test:
     a query, an answer and an authority record (the second copy is written with compression pointers)"""
@@ -232,6 +258,9 @@ HARNESSES = [
     H(total, shards=_total_shards, timeout={"quick": 120, "thorough": 1500}),
     H(cutrec, shards=[("%d <= ti < %d" % (g, min(g + 7, NW)),) for g in range(0, NW, 7)],
       timeout={"quick": 120, "thorough": 600}),
+    H(lenpref, shards=lambda tier: [("ti < 2",), ("2 <= ti < 6",), ("6 <= ti < 8",), ("9 <= ti < 11",), ("11 <= ti",)]
+      + ([] if tier == "quick" else [("ti == 8",)]),     # A6 (one path per prefix length): thorough only
+      timeout={"quick": 120, "thorough": 900}),
     H(rdata, shards=lambda tier: [("len(body) == %d" % k, g) for k in range(0, BOUNDS[tier]["rd"] + 1) for g in _TGROUPS
                                   if k > 0 or g == _TGROUPS[0]] + [("len(body) == 0", "ord(typ) >= 12")],
       timeout={"quick": 120, "thorough": 1500}),
@@ -247,6 +276,9 @@ VECTORS = {
               (0, "abcd", "\x02\x02\x02\x02", "\xc0\x0d\xc0\x0c")],
     "cutrec": [(0, 0), (0, 11), (0, 30), (5, 60), (5, 75), (5, 10 ** 6), (15, 50), (20, 70), (25, 90), (26, 40), (21, 55),
                (10, 45), (23, 44)],
+    "lenpref": [(0, "\x01", "\x05", "x"), (0, "\x03", "\x02", "\x03"), (1, "\x04", "\x05", "\x00"), (0, "\x08", "\x02", "\x04"),
+                (2, "\x02", "\x02", "\x01"), (3, "\x06", "\x00", "\x01"), (7, "\x08", "\x00", "\x00"), (8, "\x01", "\xf0", "\x00"),
+                (9, "\x05", "\xc0", "\x0c"), (4, "\x09", "a", "b"), (5, "\x02", "a", "b"), (6, "\x01", "a", "b"), (10, "\x03", "a", "b")],
     "rdata": [("\x01", "\x04", "\x01\x02\x03\x04"), ("\x10", "\x03", "\x02hi"), ("\x10", "\x05", "\x02hi"),
               ("\x0b", "\x00", ""), ("\x26", "\x01", "\xff"), ("\x2c", "\x01", "a"), ("\xfa", "\x02", "\x00\x00"),
               ("\x02", "\x02", "\xc0\x0c"), ("\x02", "\x02", "\xc0\x19"), ("\x63", "\x02", "\x05ab"), ("\xff", "\x03", "abc")],
